@@ -18,6 +18,8 @@ from ..expr import show, strip_old, walk
 from ..pathcond import PathA, calls_to, field_stores
 from . import C08, C09
 
+from ..roles import upvar_index  # noqa: E402
+
 LEVEL = "other"
 R = "srtla_core::registration::SrtlaRegistrationManager"
 S = ("param", 1)
@@ -295,7 +297,7 @@ def d8_frames_leave_on_named_uplink(ctx):
     hk = ctx.fn(HKC, "D8")
     if hk:
         fa = ctx.fa(hk)
-        up = [i for i, nm in hk.upvar_names.items() if nm == "connections"]
+        up = [i for i in [upvar_index(hk, "connections")] if i is not None]
         CONNS = ("upvar", up[0]) if up else None
         if CONNS is None:
             ctx.chk.missing("D8", "handle_housekeeping captures `connections`", "")
